@@ -323,7 +323,9 @@ class EqMethod(MethodDescriptor):
                 if value_self.__func__ is not value_other.__func__:
                     return False
                 continue
-            if value_self != value_other:
+            # (identity first, like the built-in containers: a value that is
+            # not equal to itself -- NaN -- must not make `x == x` false)
+            if value_self is not value_other and value_self != value_other:
                 return False
         return True
 
